@@ -430,3 +430,50 @@ fn early_drops() {
 	}
 	assert!(cases.run > 0);
 }
+
+/// Re-encoded YAML text longer than libyaml's 16 KiB raw buffer, made of
+/// multi-byte characters, at every alignment of the text against the buffer
+/// ends (a character's UTF-8 bytes straddle a read boundary, the carried-over
+/// remainder shortens the next read): the re-encoder must never write outside
+/// the buffer it is handed. Under Miri only one small instance runs (time).
+#[test]
+fn big_reencoded_alignments() {
+	let mut cases = Cases::new();
+	let mixed: String = "a\u{e9}\u{20ac}\u{1f600}".repeat(4);
+	let fills: [&str; 4] = ["\u{e9}", "\u{20ac}", "\u{1f600}", &mixed];
+	let (pads, total): (Vec<usize>, usize) = if cfg!(miri) { (vec![1], 17_000) } else { ((0..7).collect(), 50_000) };
+	for (fi, fill) in fills.iter().enumerate() {
+		for &pad in &pads {
+			let body: String = std::iter::repeat(*fill).take(total / fill.len()).collect();
+			let text = format!("p: \"{}\"\nt: \"{}\"\n---\n- \"{}\"\n", "x".repeat(pad), body, &body[..body.len() / 2 / fill.len() * fill.len()]);
+			let want = {
+				let mut o = vec![];
+				xt::translate_slice(text.as_bytes(), Some(Format::Yaml), Format::Json, &mut o).map(|()| o).ok()
+			};
+			for code in 1..=4u8 {
+				for cap in [0usize, usize::MAX / 4, 8191] {
+					if cfg!(miri) && (code != 3 || cap != usize::MAX / 4 || fi != 1) {
+						continue;
+					}
+					let label = format!("bigenc fill{fi} pad{pad} code{code} cap={cap}");
+					if !cases.take(&label) {
+						continue;
+					}
+					let bytes = encode(&text, code, true);
+					let mut out = vec![];
+					let r = guarded(&label, false, || {
+						if cap == 0 {
+							xt::translate_slice(&bytes, Some(Format::Yaml), Format::Json, &mut out)
+						} else {
+							xt::translate_reader(Sched::new(&bytes, cap, None), Some(Format::Yaml), Format::Json, &mut out)
+						}
+					});
+					if let (Some(Ok(())), Some(want)) = (r, &want) {
+						assert_eq!(&out, want, "case {label}");
+					}
+				}
+			}
+		}
+	}
+	assert!(cases.run > 0 || cfg!(miri));
+}
